@@ -292,6 +292,18 @@ def c15(tier):
     t0 = time.time()
     cfgs = sets.ALGO_QUICK + (sets.ALGO_THOROUGH if tier == "thorough" else [])
     cov, viols, inc = sets.run_engine("C15", tier, cfgs, 17, 17, crash_owners=("C15",), any_prop=True)
+    # optional engine: relocation between different types, judged only where the tree offers it (the binary compiles)
+    offered, not_offered = [], []
+    for oc in sets.ALGO_OPTIONAL:
+        try:
+            core.build_many([oc.spec()])
+            offered.append(oc)
+        except core.BuildError:
+            not_offered.append(oc.name)
+    if offered:
+        c2, v2, i2 = sets.run_engine("C15", tier, offered, 17, 17, crash_owners=("C15",), any_prop=True)
+        cov, viols, inc = sets.merge_cov(cov, c2), viols + v2, inc + i2
+    cov["relocation_between_different_types"] = {"judged_in": [o.name for o in offered], "not_offered_by_this_tree (does not compile)": not_offered}
     ob = cov.get("observed", {})
     cov["rule"] = ("every algorithm of amc/memory.hpp x range length 0..5 x source iterator category {pointer, random access, bidirectional, forward, move_iterator} x "
                    "value category {int, trivially copyable struct, declared-relocatable, non-relocatable, non-relocatable with throwing move} x every throw index "
@@ -392,7 +404,7 @@ def c20_check(tier):
 
 def all_quick_specs():
     cfgs = (list(vec.QUICK) + sets.FS_QUICK + sets.SS_SPACE_QUICK + sets.SS_HIST_QUICK + sets.HG_QUICK + sets.COST_QUICK + vec.GROWTH_QUICK +
-            vec.ALIAS_QUICK + vec.LIMITS_QUICK + vec.FAULT_QUICK + sets.SETFAULT_QUICK + vec.SWAP2_QUICK + sets.ALGO_QUICK + sets.REALLOC_DIRECT + sets.NESTED_QUICK + sets.GROWTH_HUGE)
+            vec.ALIAS_QUICK + vec.LIMITS_QUICK + vec.FAULT_QUICK + sets.SETFAULT_QUICK + vec.SWAP2_QUICK + sets.ALGO_QUICK + sets.ALGO_OPTIONAL + sets.REALLOC_DIRECT + sets.NESTED_QUICK + sets.GROWTH_HUGE)
     return [c.spec() for c in cfgs]
 
 
